@@ -573,8 +573,67 @@ func (g *Graph) classifyReturns() []RetPath {
 			out = append(out, RetPath{Ret: ret, Class: RetSuccess})
 			continue
 		}
-		out = append(out, g.classifyErrVal(ret, ret.Results[errIdx], b, nil, 0)...)
+		ev := ret.Results[errIdx]
+		// defer-spilled results: the function has a defer, so every `return x, err` stores into result
+		// slots and jumps to a common exit that loads them. Classify each store separately.
+		if ld, ok := ev.(*ssa.UnOp); ok && ld.Op == token.MUL {
+			if slot, ok := ld.X.(*ssa.Alloc); ok && isResultSlot(slot) {
+				for _, rf := range *slot.Referrers() {
+					st, ok := rf.(*ssa.Store)
+					if !ok || st.Addr != slot || !g.Reachable()[st.Block()] {
+						continue
+					}
+					for _, rp := range g.classifyErrVal(ret, st.Val, st.Block(), st.Block(), 0) {
+						if rp.Pred == nil {
+							rp.Pred = st.Block()
+						}
+						out = append(out, rp)
+					}
+				}
+				continue
+			}
+		}
+		out = append(out, g.classifyErrVal(ret, ev, b, nil, 0)...)
 	}
+	return out
+}
+
+// isResultSlot: an alloc only ever stored to and loaded from (the spill slot of a result).
+func isResultSlot(a *ssa.Alloc) bool {
+	if a.Referrers() == nil {
+		return false
+	}
+	for _, rf := range *a.Referrers() {
+		switch x := rf.(type) {
+		case *ssa.Store:
+			if x.Addr != a {
+				return false
+			}
+		case *ssa.UnOp:
+		case *ssa.DebugRef:
+		default:
+			return false
+		}
+	}
+	return true
+}
+
+// spilledResult: the i-th result of a return, resolved through a result slot to the values stored
+// into it (one per storing block).
+func spilledResults(ret *ssa.Return, i int) map[*ssa.BasicBlock]ssa.Value {
+	out := map[*ssa.BasicBlock]ssa.Value{}
+	v := ret.Results[i]
+	if ld, ok := v.(*ssa.UnOp); ok && ld.Op == token.MUL {
+		if slot, ok := ld.X.(*ssa.Alloc); ok && isResultSlot(slot) {
+			for _, rf := range *slot.Referrers() {
+				if st, ok := rf.(*ssa.Store); ok && st.Addr == slot {
+					out[st.Block()] = st.Val
+				}
+			}
+			return out
+		}
+	}
+	out[ret.Block()] = v
 	return out
 }
 
@@ -663,4 +722,13 @@ func (g *Graph) knownNonNilAt(v ssa.Value, b *ssa.BasicBlock) bool {
 	}
 	ex, _ := g.PathExists(from, IPos{b, 0}, Avoid{}.withEdges(bad...))
 	return !ex
+}
+
+// retPos: the position a path must reach for this return path: the end of the block the returned
+// value comes from (phi edge or defer-spilled store), else the return itself.
+func retPos(rp RetPath) IPos {
+	if rp.Pred != nil && len(rp.Pred.Instrs) > 0 {
+		return IPos{rp.Pred, len(rp.Pred.Instrs) - 1}
+	}
+	return posOf(rp.Ret)
 }
